@@ -173,12 +173,17 @@ def c_shapes(ctx, case):
     ctx.note(_nontrivial(p, X) and len(chunks) >= 2, "chunks>=2" if len(chunks) >= 2 else "chunks=1",
              "single-row-chunk" if 1 in chunks else None, "kind:" + case["kind"])
     batch = np.asarray(g.log_likelihood(X))
+    batch_lw = np.asarray(g.log_weighted_likelihood(X))
     want = ref.gmm_logpdf(X, p["weights"], p["means"], p["variances"])
     ctx.close(batch, want, "batch ll", rtol=1e-10, atol=1e-9)
     for t in range(X.shape[0]):
         one = np.asarray(g.log_likelihood(X[t]))
         ctx.check(one.shape == (1,), "single-vector result shape %s" % (one.shape,), "shape")
         ctx.close(one[0], batch[t], "single vs batch", rtol=1e-12, atol=1e-12)
+        lw1 = np.asarray(g.log_weighted_likelihood(X[t]))
+        ctx.check(lw1.shape == (int(p["C"]), 1), "single-vector log_weighted_likelihood shape %s, expected (C, 1)" % (lw1.shape,),
+                  "shape")
+        ctx.close(lw1[:, 0], batch_lw[:, t], "single vs batch, per-component weighted log-likelihoods", rtol=1e-12, atol=1e-12)
     dX = sut.dask_rows(X, chunks)
     dl = np.asarray(g.log_likelihood(dX).compute())
     ctx.close(dl, batch, "dask vs numpy ll", rtol=1e-12, atol=1e-12)
